@@ -171,7 +171,12 @@ struct Explorer {
 			if (!extentProblem.empty()) { ctx.violation(std::string("C05/extent/") + (f.vol ? "vol" : "clm"), f.desc + " :: " + showOp(ops[k]), extentProblem); return; }
 			ctx.count(fresh[k][0] == 'R' ? "calls/returned" : "calls/ordinary-error");
 			std::string k2 = readerKey(*a, f.vol);
-			if (!gReaderKeyAvailable) k2 = "after-call-" + std::to_string(k);     // fallback: one state per first call (all sequences of length 2)
+			if (!gReaderKeyAvailable) {
+				// fallback: sequences of length 2 whose first call is one representative per (kind of call, what it gave); calls that
+				// deliver no member data are represented per (kind, returned or refused)
+				bool data = ops[k].kind == kOpenStreamI || ops[k].kind == kOpenStreamN || ops[k].kind == kExtractI || ops[k].kind == kExtractN;
+				k2 = "after-" + std::to_string(int(ops[k].kind)) + ":" + (data ? fresh[k] : fresh[k].substr(0, 1));
+			}
 			if (!states.count(k2)) { states[k2] = { k }; queue.push_back(k2); }
 		}
 		// every call in every reachable state behaves as on a fresh object
